@@ -1,0 +1,16 @@
+//go:build verif
+// +build verif
+
+package state
+
+import (
+	"github.com/xuperchain/xupercore/bcs/ledger/xledger/tx"
+	pb "github.com/xuperchain/xupercore/bcs/ledger/xledger/xldgpb"
+)
+
+// VerifSortUnconfirmedTx exposes the pool's dependency graph (txid -> txids that must come later)
+// to the verification harness.
+func (t *State) VerifSortUnconfirmedTx() (map[string]*pb.Transaction, tx.TxGraph, error) {
+	txMap, txGraph, _, err := t.tx.SortUnconfirmedTx()
+	return txMap, txGraph, err
+}
